@@ -4,6 +4,10 @@
 set -e
 cd "$(dirname "$0")"
 export CARGO_NET_OFFLINE=true
+# start the Coq build from nothing: a copy of this directory taken while a build was running can contain a truncated
+# dependency file or .vo (that made one `vp check` fail); a cold build is about a minute
+rm -f coq/.Makefile.coq.d coq/Makefile.coq coq/Makefile.coq.conf coq/_CoqProject
+find coq \( -name '*.vo' -o -name '*.vok' -o -name '*.vos' -o -name '*.glob' -o -name '*.aux' \) -delete
 python3 tools/mk.py all > out_setup_coq.log 2>&1 || { mkdir -p out; mv out_setup_coq.log out/; tail -50 out/out_setup_coq.log; exit 1; }
 mkdir -p out; mv out_setup_coq.log out/
 cd harness
